@@ -133,6 +133,15 @@ CHECKS["C19"] = dict(
          "it removes every source of run-to-run variation that the code's shape can contain.",
     design="DESIGN.md §6 C19")
 
+CHECKS["C20"] = dict(
+    technique="CFG rules on the binary crate's MIR: taint of read_line's byte count to a loop exit, classification of prompt words by the ending their equal-edge reaches, effect scan of the stepping region and the INT 3 arm, truth table of prompt counts by partial evaluation of the region's branches over the atoms interpreted/TF/not-the-appended-hlt, value tracing of the message position",
+    text="Decides: the prompt loop has an end-of-input exit; n/next return, q/quit exit, every other line goes to the print parser with the same &VM and then back to "
+         "the prompt; between the loop head and the interpreter call (and in the INT 3 arm) nothing assigns the instruction index or borrows the machine mutably, and "
+         "the prompt/print functions take &VM; the number of prompts before an instruction is exactly 1 iff (interpreted or TF of the current flag word) and the "
+         "instruction is not the appended hlt, on every path (8-row table); the bound's arithmetic cannot underflow; the line named is the instruction's own. "
+         "Does NOT decide equality of whole runs (composition of these facts over the instruction loop, argued).",
+    design="DESIGN.md §6 C20")
+
 NOT_YET = {}
 
 
